@@ -11,10 +11,10 @@ Theorem gen_mpc_spec : forall (sts : list raw) (lb ne : nat) (last0 : Z),
   matches (mpc_solve false lb ne sts) last0 sts (run sts lb ne last0).
 Proof.
   intros sts lb ne last0. unfold matches, run, g_res, g_n, g_last, g_solved, g_chosen, fn, body, init_st.
-  loop_then_false.
+  seq_assigns. loop_then_false.
   match goal with |- context [then_false (py_loop ?B _ _)] =>
     pose proof (search_loop_sem st at_o_n at_o_last at_chosen at_solved (codes sts) B) as L end.
-  replace (Z.add (Z.of_nat ne) 1) with (Z.of_nat (S ne)) by lia. rewrite range2_krange.
+  cbv beta. gen_simpl. replace (Z.add (Z.of_nat ne) 1) with (Z.of_nat (S ne)) by lia. rewrite range2_krange.
   match type of L with ?H -> _ => assert (HB : H) by (kbody_tac ltac:(gen_simpl)) end.
   specialize (L HB sts eq_refl (krange lb (S ne)) 0).
   match goal with |- context [py_loop ?B ?l ?s0] => specialize (L s0 eq_refl) end.
